@@ -125,6 +125,107 @@ UNITS.append(dict(
     harness='void h_mpz_swap (void) {\n%s%s  mpz_ptr u = &U, v = &V; if (nondet_bool ()) v = u;\n  __gmpz_swap (u, v);\n}' % (mpz_obj('U'), mpz_obj('V')),
     selftest=[('__gmpz_swap', r'u->_mp_size = vsize', 'u->_mp_size = usize')]))
 
+# ------------------------------------------------------------------ mpz_add_ui / mpz_sub_ui / mpz_ui_sub
+MPZ_UI_CONTRACT = '''void %s (mpz_ptr w, mpz_srcptr u, mpir_ui v)
+__CPROVER_requires (V_WF (w) && V_WF (u) && V_ABSIZ (u) < V_ZMAX && V_GHOSTS_OK)
+__CPROVER_assigns (*w, __CPROVER_object_whole (V_PTR (w)), g_ci, g_co, g2_ci, g2_co)
+__CPROVER_frees (V_PTR (w))
+__CPROVER_ensures (V_WF_AT (w, gk));
+'''
+def mpz_aors_ui(op):
+    f = '__gmpz_%s_ui' % op
+    s = 1 if op == 'add' else -1
+    h = '''void h_mpz_%(op)s_ui (void) {
+%(W)s%(U)s%(alias)s
+  mpir_ui v = nondet_ulong ();
+  gk = nondet_long (); gh = 0;              /* third ghost position: limb 0 (compared with v by the code) */
+  __CPROVER_assume (0 <= gk && gk < V_ZMAX && V_WF (w) && V_WF (u));
+  gj = gk + 1;                              /* two adjacent positions: "size can decrease by at most one limb" */
+  long su = V_SIZ (u), un = V_ABS (su);
+  mp_limb_t Uk = gk < un ? V_PTR (u)[gk] : 0, U0 = un ? V_PTR (u)[0] : 0;
+  %(f)s (w, u, v);
+  long sw = V_SIZ (w), wn = V_ABS (sw);
+  mp_limb_t Wk = V_PTR (w)[gk < V_ALLOC (w) ? gk : 0], vk = (gk == 0 ? v : 0);
+  _Bool vneg = %(vneg)d;                    /* sign of the term +-v that is added */
+  if (un == 0)
+    {
+      __CPROVER_assert (wn == (v != 0) && (wn == 0 || (V_PTR (w)[0] == v && (sw < 0) == vneg)), "[C03] 0 +- v = +-v");
+    }
+  else if ((su < 0) == vneg)
+    { /* magnitudes add */
+      __CPROVER_assert (gk < un ==> (g_ci <= 1 && g_co <= 1 && V_ADDREL (Wk, Uk, vk, g_ci, g_co)), "[C03][C05] |w| = |u| + v: carry chain at limb gk");
+      __CPROVER_assert ((gk == 0 && gk < un) ==> g_ci == 0, "[C03] no carry into limb 0");
+      __CPROVER_assert (gk == un - 1 ==> V_PTR (w)[un] == g_co, "[C03] limb un is the carry out of the top limb");
+      __CPROVER_assert (V_PTR (w)[un] <= 1 && wn == un + (long) V_PTR (w)[un] && (sw < 0) == (su < 0), "[C03] size = un + carry, sign of u");
+    }
+  else if (un == 1 && U0 < v)
+    {
+      __CPROVER_assert (wn == 1 && V_PTR (w)[0] == v - U0 && (sw < 0) == vneg, "[C03] |u| < v: result is +-(v - |u|) with the sign of the added term");
+    }
+  else
+    { /* |u| >= v: |w| = |u| - v, sign of u */
+      __CPROVER_assert (gk < un ==> (g_ci <= 1 && g_co <= 1 && V_SUBREL (Wk, Uk, vk, g_ci, g_co)), "[C03][C05] |w| = |u| - v: borrow chain at limb gk");
+      __CPROVER_assert ((gk == 0 && gk < un) ==> g_ci == 0, "[C03] no borrow into limb 0");
+      __CPROVER_assert ((wn == un || wn == un - 1) && ((wn <= gk && gk < un) ==> Wk == 0), "[C03][C04] size drops by at most one limb, the dropped limb is zero");
+      __CPROVER_assert (wn == 0 || (sw < 0) == (su < 0), "[C03] sign of u");
+    }
+  if (u != w) __CPROVER_assert ((long) V_SIZ (u) == su && (gk < un ==> V_PTR (u)[gk] == Uk), "[C05] source operand unchanged");
+}''' % dict(op=op, f=f, W=mpz_obj('W'), U=mpz_obj('U'), alias=ALIAS2, vneg=1 if s < 0 else 0)
+    u = dict(name='mpz_%s_ui' % op, props=['C03', 'C04', 'C05', 'C15'], source='mpz/%s_ui.c' % op, contracts=['mpn.h', 'mpz.h', 'c11.h', 'mpq.h'],
+             contract_text=MPZ_UI_CONTRACT % f, enforce=[f], replace=['__gmpz_realloc', '__gmpn_add_1', '__gmpn_sub_1'],
+             harness=h, timeout=600,
+             selftest=[(f, r'abs_usize == 1 && up\[0\] < vval', 'abs_usize == 1 && up[0] <= vval'),
+                       (f, r'wp\[abs_usize - 1\] == 0', 'wp[abs_usize - 1] == 1'),
+                       (f, r'wsize = abs_usize \+ 1;', 'wsize = abs_usize;')])
+    return split_alias(u, ALIAS2, A2)
+UNITS.extend(mpz_aors_ui('add'))
+UNITS.extend(mpz_aors_ui('sub'))
+
+UI_SUB_H = '''void h_mpz_ui_sub (void) {
+%(W)s%(V)s  mpz_ptr w = &W; mpz_srcptr v = &V;
+  if (nondet_bool ()) v = w;
+  mpir_ui uval = nondet_ulong ();
+  gk = nondet_long (); gh = 0;
+  __CPROVER_assume (0 <= gk && gk < V_ZMAX && V_WF (w) && V_WF (v));
+  gj = gk + 1;
+  long sv = V_SIZ (v), vn = V_ABS (sv);
+  mp_limb_t Vk = gk < vn ? V_PTR (v)[gk] : 0, V0 = vn ? V_PTR (v)[0] : 0;
+  __gmpz_ui_sub (w, uval, v);
+  long sw = V_SIZ (w), wn = V_ABS (sw);
+  mp_limb_t Wk = V_PTR (w)[gk < V_ALLOC (w) ? gk : 0], uk = (gk == 0 ? uval : 0);
+  if (sv == 0)
+    __CPROVER_assert (wn == (uval != 0) && (wn == 0 || (V_PTR (w)[0] == uval && sw > 0)), "[C03] u - 0 = u");
+  else if (sv < 0)
+    { /* u + |v| */
+      __CPROVER_assert (gk < vn ==> (g_ci <= 1 && g_co <= 1 && V_ADDREL (Wk, Vk, uk, g_ci, g_co)), "[C03][C05] w = u + |v|: carry chain at limb gk");
+      __CPROVER_assert ((gk == 0 && gk < vn) ==> g_ci == 0, "[C03] no carry into limb 0");
+      __CPROVER_assert (gk == vn - 1 ==> V_PTR (w)[vn] == g_co, "[C03] limb vn is the carry out");
+      __CPROVER_assert (V_PTR (w)[vn] <= 1 && wn == vn + (long) V_PTR (w)[vn] && sw > 0, "[C03] size = vn + carry, positive");
+    }
+  else if (vn == 1 && uval >= V0)
+    __CPROVER_assert (V_PTR (w)[0] == uval - V0 && sw == (uval != V0), "[C03] u >= v: non-negative difference");
+  else if (vn == 1)
+    __CPROVER_assert (V_PTR (w)[0] == V0 - uval && sw == -1, "[C03] one-limb v > u: w = -(v - u)");
+  else
+    { /* v > u: w = -(v - u) */
+      __CPROVER_assert (gk < vn ==> (g_ci <= 1 && g_co <= 1 && V_SUBREL (Wk, Vk, uk, g_ci, g_co)), "[C03][C05] |w| = v - u: borrow chain at limb gk");
+      __CPROVER_assert ((gk == 0 && gk < vn) ==> g_ci == 0, "[C03] no borrow into limb 0");
+      __CPROVER_assert ((wn == vn || wn == vn - 1) && ((wn <= gk && gk < vn) ==> Wk == 0) && sw < 0, "[C03][C04] size drops by at most one limb; negative");
+    }
+  if (v != w) __CPROVER_assert ((long) V_SIZ (v) == sv && (gk < vn ==> V_PTR (v)[gk] == Vk), "[C05] source operand unchanged");
+}'''
+_uis = dict(name='mpz_ui_sub', props=['C03', 'C04', 'C05', 'C15'], source='mpz/ui_sub.c', contracts=['mpn.h', 'mpz.h', 'c11.h', 'mpq.h'],
+            contract_text='''void __gmpz_ui_sub (mpz_ptr w, mpir_ui uval, mpz_srcptr v)
+__CPROVER_requires (V_WF (w) && V_WF (v) && V_ABSIZ (v) < V_ZMAX && V_GHOSTS_OK)
+__CPROVER_assigns (*w, __CPROVER_object_whole (V_PTR (w)), g_ci, g_co, g2_ci, g2_co)
+__CPROVER_frees (V_PTR (w))
+__CPROVER_ensures (V_WF_AT (w, gk));
+''', enforce=['__gmpz_ui_sub'], replace=['__gmpz_realloc', '__gmpn_add_1', '__gmpn_sub_1'],
+            harness=UI_SUB_H % dict(W=mpz_obj('W'), V=mpz_obj('V')), timeout=600,
+            selftest=[('__gmpz_ui_sub', r'if \(uval >= vp\[0\]\)', 'if (uval > vp[0])'), ('__gmpz_ui_sub', r'vn \+ 1\)', 'vn)')])
+UNITS.extend(split_alias(_uis, '  mpz_ptr w = &W; mpz_srcptr v = &V;\n  if (nondet_bool ()) v = w;\n',
+                         [('', '  mpz_ptr w = &W; mpz_srcptr v = &V;\n'), ('wv', '  mpz_ptr w = &W; mpz_srcptr v = w;\n')]))
+
 # ------------------------------------------------------------------ mpz_mul_2exp
 def store_loop(K):
     return dict(snap='mp_size_t V_sn = __n; mp_ptr V_sd = __dst; long V_sK = (%s);' % K, scalars=['__n'], havoc_targets=['__dst'],
